@@ -23,4 +23,12 @@ with open('/verif/seeded/RESULTS.md','w') as f:
     for sid,m in rows:
         det='; '.join(f"{c['check']} ({', '.join(c['violated_obligations'][:4])})" for c in m['checks_run'] if c['exit']==1 and c['violated_obligations']) or '**missed**'
         f.write(f"| {sid} | {m['property']} | {m['needs_to_manifest']} | {', '.join(c['check'] for c in m['checks_run'])} | {det} |\n")
+# the same table goes into DESIGN.md §10.3 between the markers
+tbl=[l for l in open('/verif/seeded/RESULTS.md').read().split('\n') if l.startswith('|')]
+d=open('/verif/DESIGN.md').read()
+b,e='<!-- SEEDED-TABLE-BEGIN -->','<!-- SEEDED-TABLE-END -->'
+if b in d and e in d:
+    i,j=d.index(b)+len(b),d.index(e)
+    d=d[:i]+'\n'+'\n'.join(tbl)+'\n'+d[j:]
+    open('/verif/DESIGN.md','w').write(d)
 print(open('/verif/seeded/RESULTS.md').read())
